@@ -39,6 +39,9 @@ type Schedule struct {
 	TextBase int `json:"textbase,omitempty"`
 	// ShortDH: every DH exponent drawn has a public value with a leading zero byte
 	ShortDH bool `json:"shortdh,omitempty"`
+	// Multi: the account of B is logged in from a second client C (same long-term key, own instance
+	// tag); what A sends reaches both, what either sends reaches A (OTRMulti.tla)
+	Multi bool `json:"multi,omitempty"`
 	// NoKeys: parties created without a long-term key
 	NoKeys []string `json:"nokeys,omitempty"`
 	Steps  []Step   `json:"steps"`
@@ -68,6 +71,17 @@ func newWorld(sc *Schedule, seed uint64, out *os.File) *world.World {
 				w.P[n].Conv.SetOurKeys(nil)
 				w.P[n].NoKeys = true
 			}
+		}
+	}
+	if sc.Multi {
+		bits, ok := sc.Pol["C"]
+		if !ok {
+			bits = 2
+		}
+		w.AddPartyKey("C", "A", world.PolicyFromBits(bits), sc.Ver["C"], "B")
+		w.P["A"].Cc = []string{"C"}
+		if z := sc.Frag["C"]; z > 0 {
+			w.SetFragSize(w.P["C"], z)
 		}
 	}
 	w.TextBase = sc.TextBase
@@ -243,6 +257,11 @@ func execStep(w *world.World, s Step) bool {
 func drain(w *world.World, max int) {
 	for i := 0; i < max; i++ {
 		a, b := w.P["A"], w.P["B"]
+		c := w.P["C"]
+		if c != nil && !c.Mute && len(c.Queue) > 0 {
+			w.Deliver(c)
+			continue
+		}
 		if len(a.Queue) == 0 && len(b.Queue) == 0 {
 			return
 		}
@@ -495,6 +514,54 @@ func genSchedule(rng *rand.Rand, family string, depth int) *Schedule {
 				add(Step{A: "SMPAnswer", P: ps[rng.Intn(2)], S: s1})
 			}
 		}
+		return sc
+	case "smpend":
+		// an SMP run in every stage and with every outcome (just started, waiting for the answer, half done,
+		// succeeded, failed, aborted by either side), then the session ends: End() by one side, the
+		// disconnect delivered to the other.  Nothing of the run may stay behind (C08).
+		sc.Setup = "ake"
+		v := genIdx
+		ini, oth := ps[v%2], ps[1-v%2]
+		stage := (v / 2) % 7
+		ender := ps[(v/14)%2]
+		s1, s2 := 5, 5
+		add(Step{A: "SMPStart", P: ini, S: s1, Q: (v/28)%2 == 1})
+		if stage >= 1 {
+			add(Step{A: "Deliver", P: oth})
+		}
+		switch stage {
+		case 2, 3:
+			add(Step{A: "SMPAnswer", P: oth, S: s2})
+			if stage == 3 {
+				add(Step{A: "Deliver", P: ini})
+			}
+		case 4, 5:
+			if stage == 5 {
+				s2 = 6
+			}
+			add(Step{A: "SMPAnswer", P: oth, S: s2})
+			for k := 0; k < 3; k++ {
+				add(Step{A: "Deliver", P: ini})
+				add(Step{A: "Deliver", P: oth})
+			}
+		case 6:
+			add(Step{A: "SMPAnswer", P: oth, S: s2})
+			add(Step{A: "SMPAbort", P: ps[(v/28)%2]})
+			for k := 0; k < 2; k++ {
+				add(Step{A: "Deliver", P: ini})
+				add(Step{A: "Deliver", P: oth})
+			}
+		}
+		add(Step{A: "End", P: ender})
+		for k := 0; k < 3; k++ {
+			add(Step{A: "Deliver", P: "A"})
+			add(Step{A: "Deliver", P: "B"})
+		}
+		other := "B"
+		if ender == "B" {
+			other = "A"
+		}
+		add(Step{A: "End", P: other})
 		return sc
 	case "smpcount":
 		// every SMP message with every wrong count of numbers (one short, one more, none, 2^32-1, 2^28), both
